@@ -461,7 +461,7 @@ func serMixedBaseline(c *serCase) (mixed bool, repeated bool) {
 }
 
 // serCompare compares one AllComparisonSeries result with the expectation.
-func serCompare(c *serCase, nm *serNames, vals []float64, css []*benchseries.ComparisonSeries) Verdict {
+func serCompare(c *serCase, nm *serNames, reps [][]float64, css []*benchseries.ComparisonSeries) Verdict {
 	byUnit := map[string]*benchseries.ComparisonSeries{}
 	var gotUnits, wantUnits []string
 	for _, cs := range css {
@@ -547,10 +547,10 @@ func serCompare(c *serCase, nm *serNames, vals []float64, css []*benchseries.Com
 				}
 				var wn, wd []float64
 				for _, i := range p.Num {
-					wn = append(wn, vals[i-1])
+					wn = append(wn, reps[i-1]...)
 				}
 				for _, i := range p.Den {
-					wd = append(wd, vals[i-1])
+					wd = append(wd, reps[i-1]...)
 				}
 				wn, wd = serSorted(wn), serSorted(wd)
 				gn := serSorted(cc.Numerator.Values)
@@ -671,6 +671,8 @@ type serPlan struct {
 	c      *serCase
 	nm     serNames
 	vals   []float64
+	reps   [][]float64 // the measurements each record stands for (reps[i][0] == vals[i])
+	valsJ  [][]float64 // valsJ[j][i] = reps[i][j]
 	spell  []int
 	how    int
 	mixed  bool
@@ -698,8 +700,8 @@ func serRunPerm(pl *serPlan, pi int, perm []int, style string, nfiles int) (res 
 		res.v = fail("harness", "NewBuilder: %v", err)
 		return
 	}
-	mk := func(g []int) *benchfmt.Result {
-		r := nm.result(c, g, pl.vals, pl.spell)
+	mkJ := func(g []int, j int) *benchfmt.Result {
+		r := nm.result(c, g, pl.valsJ[j], pl.spell)
 		if style == "filtered" {
 			r.Values = append([]benchfmt.Value{{Value: 4242, Unit: "noise/op"}}, r.Values...)
 		}
@@ -724,11 +726,30 @@ func serRunPerm(pl *serPlan, pi int, perm []int, style string, nfiles int) (res 
 		}
 		groups = append(groups, []int{i})
 	}
+	// a record may stand for several measurements with the same keys (a benchmark run with
+	// -count): the group is then added once per repetition, with the records that have one
+	var expanded [][]int
+	var expJ []int
+	for _, g := range groups {
+		for j := 0; j < len(pl.valsJ); j++ {
+			var gj []int
+			for _, i := range g {
+				if j < len(pl.reps[i]) {
+					gj = append(gj, i)
+				}
+			}
+			if len(gj) == 0 {
+				break
+			}
+			expanded = append(expanded, gj)
+			expJ = append(expJ, j)
+		}
+	}
 	if style == "files" {
 		// split the order over 1-3 files and read them back through AddFiles
 		var paths []string
-		per := (len(groups) + nfiles - 1) / nfiles
-		for f := 0; f*per < len(groups); f++ {
+		per := (len(expanded) + nfiles - 1) / nfiles
+		for f := 0; f*per < len(expanded); f++ {
 			p := filepath.Join(pl.dir, fmt.Sprintf("c%d-%s-p%d-f%d.txt", pl.caseNo, c.Policy, pi, f))
 			fh, err := os.Create(p)
 			if err != nil {
@@ -737,11 +758,11 @@ func serRunPerm(pl *serPlan, pi int, perm []int, style string, nfiles int) (res 
 			}
 			w := benchfmt.NewWriter(fh)
 			hi := (f + 1) * per
-			if hi > len(groups) {
-				hi = len(groups)
+			if hi > len(expanded) {
+				hi = len(expanded)
 			}
-			for _, g := range groups[f*per : hi] {
-				if err := w.Write(nm.result(c, g, pl.vals, pl.spell)); err != nil {
+			for gi := f * per; gi < hi; gi++ {
+				if err := w.Write(nm.result(c, expanded[gi], pl.valsJ[expJ[gi]], pl.spell)); err != nil {
 					fh.Close()
 					res.v = fail("harness", "write: %v", err)
 					return
@@ -759,8 +780,8 @@ func serRunPerm(pl *serPlan, pi int, perm []int, style string, nfiles int) (res 
 			return
 		}
 	} else {
-		for _, g := range groups {
-			bld.Add(mk(g))
+		for gi, g := range expanded {
+			bld.Add(mkJ(g, expJ[gi]))
 		}
 	}
 	for k := 0; k < serCalls; k++ {
@@ -780,7 +801,7 @@ func serRunPerm(pl *serPlan, pi int, perm []int, style string, nfiles int) (res 
 			res.v = fail("error-from-AllComparisonSeries", "%v; %s", err, order())
 			return
 		}
-		if v := serCompare(c, nm, pl.vals, css); !v.OK {
+		if v := serCompare(c, nm, pl.reps, css); !v.OK {
 			v.Detail += "; " + order()
 			v.Concrete = jsonStr(serDump(css))
 			res.v = v
@@ -836,6 +857,32 @@ func serReplaySeries(c *serCase, caseNo int, dir string) Verdict {
 	for i := range pl.vals {
 		pl.vals[i] = pool[rnd.Intn(len(pool))]
 		pl.spell[i] = rnd.Intn(8)
+	}
+	// two cases in three: records stand for 1, 3 or 5 measurements each (slices with spare capacity
+	// inside the builder's cells, samples longer than one value per record)
+	pl.reps = make([][]float64, n)
+	maxm := 1
+	for i := range pl.reps {
+		m := 1
+		if caseNo%3 != 0 {
+			m = []int{1, 3, 5, 3}[rnd.Intn(4)]
+		}
+		pl.reps[i] = []float64{pl.vals[i]}
+		for j := 1; j < m; j++ {
+			pl.reps[i] = append(pl.reps[i], pool[rnd.Intn(len(pool))]+float64(j)/16)
+		}
+		if m > maxm {
+			maxm = m
+		}
+	}
+	pl.valsJ = make([][]float64, maxm)
+	for j := range pl.valsJ {
+		pl.valsJ[j] = make([]float64, n)
+		for i := range pl.reps {
+			if j < len(pl.reps[i]) {
+				pl.valsJ[j][i] = pl.reps[i][j]
+			}
+		}
 	}
 	pl.mixed, _ = serMixedBaseline(c)
 	perms := serPerms(n, rnd)
